@@ -193,8 +193,8 @@ def run_cro(topo):
 
 # ----------------------------------------------------------------------------- __init__ profile block
 def profile_block():
-    """Statements of TokamakEquilibrium.__init__ from `if self.user_options.reverse_current`
-    up to (not including) `self.magneticFunctionsFromGrid(...)`, compiled as a function."""
+    """Statements of TokamakEquilibrium.__init__ from the one after `self.user_options = ...`
+    (in the pinned source: `if self.user_options.reverse_current`) up to (not including) `self.magneticFunctionsFromGrid(...)`, compiled as a function."""
     from hypnotoad.cases import tokamak as T
 
     src = textwrap.dedent(inspect.getsource(T.TokamakEquilibrium.__init__))
@@ -202,8 +202,10 @@ def profile_block():
     fdef = tree.body[0]
     start = end = None
     for i, st in enumerate(fdef.body):
-        if start is None and isinstance(st, ast.If) and "reverse_current" in ast.unparse(st.test):
-            start = i
+        # from the first statement after the options object exists (anything the constructor
+        # computes from the profile arrays before transforming them belongs to the block)
+        if start is None and isinstance(st, ast.Assign) and "user_options_factory.create" in ast.unparse(st.value):
+            start = i + 1
         if end is None and isinstance(st, ast.Expr) and "magneticFunctionsFromGrid" in ast.unparse(st):
             end = i
     if start is None or end is None:
@@ -257,6 +259,48 @@ def run_extrapolate(increasing):
         return out
 
     return run
+
+
+def make_extrapolate_preprocessed_run(rc, tp):
+    """extrapolate_profiles together with reverse_current / psi_divide_twopi: the profiles the
+    constructor ends up with are those it gets from the already transformed arrays with the
+    options off (C16: only psi changes sign / scale; the pressure profile does not)."""
+
+    def run(ctx):
+        from hypnotoad.cases import tokamak as T
+
+        fn, n = profile_block()
+        m = 3
+        mk_ = lambda nm: numpy.array([ctx.real("%s_%d" % (nm, k)) for k in range(m)], dtype=object)
+        psi1D, press, fpol = mk_("psi1D"), mk_("p"), mk_("f")
+        psi2D = numpy.array([[ctx.real("psi2D")]], dtype=object)
+        s = -1 if rc else 1
+        twopi = 2 * ctx.pi() if tp else 1
+        tr = lambda a: numpy.array([s * x / twopi for x in a.reshape(-1)], dtype=object).reshape(a.shape)
+        psi1D_t = tr(psi1D)
+        psi_out = ctx.real("psi_sol")  # in the units / sign of the transformed psi, as the options are
+        for k in range(m - 1):
+            ctx.assume(psi1D_t[k + 1] > psi1D_t[k])
+        ctx.assume(And(press[-1] > 0, psi_out > psi1D_t[-1]))
+        ctx.light_axioms = True
+        opts = lambda a, b: types.SimpleNamespace(user_options=types.SimpleNamespace(reverse_current=a, psi_divide_twopi=b, reverse_Bt=False, extrapolate_profiles=True, psi_sol=psi_out, psi_sol_inner=psi_out))
+        with patched((T.warnings, "warn", lambda *a, **k: None)):
+            A = fn(opts(rc, tp), psi2D.copy(), psi1D.copy(), fpol.copy(), press.copy(), None, None)
+            B = fn(opts(False, False), tr(psi2D), psi1D_t.copy(), fpol.copy(), press.copy(), None, None)
+        with spec_mode():
+            ctx.oblige(TRUE(len(A["psi1D"]) == len(B["psi1D"]) and len(A["pressure"]) == len(B["pressure"]) == len(A["psi1D"])), "same extended length through the option and from pre-transformed arrays")
+            for k in range(min(len(A["psi1D"]), len(B["psi1D"]))):
+                ctx.oblige(A["psi1D"][k] == B["psi1D"][k], "psi1D[%d] identical" % k)
+                ctx.oblige(A["pressure"][k] == B["pressure"][k], "pressure[%d] identical (the pressure profile does not depend on the sign / units convention of psi)" % k)
+                ctx.oblige(A["fpol1D"][k] == B["fpol1D"][k], "fpol1D[%d] identical" % k)
+        return A
+
+    return run
+
+
+def add_extrapolate_preprocessed(S):
+    for rc, tp in ((True, False), (False, True), (True, True)):
+        S.contract("profiles[extrapolate after %s]" % "+".join(n for n, on in (("reverse_current", rc), ("psi_divide_twopi", tp)) if on), FN_INIT, make_extrapolate_preprocessed_run(rc, tp), shape="3 profile points")
 
 
 def exp_arg(ctx, val, p0):
@@ -374,6 +418,7 @@ def build(S):
         S.contract("profiles[extrapolate,psi increasing]", FN_INIT, run_extrapolate(True), shape="4 profile points")
         S.contract("profiles[extrapolate,psi decreasing]", FN_INIT, run_extrapolate(False), shape="4 profile points")
         S.contract("profiles[sign/2pi preprocessing]", FN_INIT, run_preprocess, shape="3 profile points, 2x2 psi")
+        add_extrapolate_preprocessed(S)
         S.contract("fpol/fpolprime/pressure/Bt_axis", FN_FPP, run_profiles, shape="scalar")
         from . import C03_circular
 
